@@ -126,9 +126,16 @@ def rewrite_run(rid, ops, out_sel, nested_kwargs, v0, v1, v2, v3, v4, v5):
         outs = [o for fs in t for o in fs.outputs]
     out_sel = L.concretize(out_sel, 0, len(outs) - 1)
     out = outs[out_sel]
-    kw = {a: x for a, x in zip(p_twin.root_args(out), vals)}
+    names = runt.all_names(t)
+    value_of = {nm: vals[k % len(vals)] for k, nm in enumerate(names)}
+    kw = {a: value_of[a] for a in p_twin.root_args(out)}
     exp, called, used, memo = runt.ref_eval(t, out, kw)
-    kw_q = {ren.get(a, a): x for a, x in kw.items()}
+    inv = {v: k for k, v in ren.items()}
+    # a rewritten pipeline may need more root arguments for this output (nesting merges the inputs of the nested
+    # functions): supply every root argument it asks for, with the same value per (original) name
+    with NoTracing():
+        roots_q = q.root_args(ren.get(out, out))
+    kw_q = {a: value_of[inv.get(a, a)] for a in roots_q if inv.get(a, a) in value_of}
     if nested_kwargs and any("." in k for k in kw_q):
         nested = {}
         for k, x in kw_q.items():
@@ -224,6 +231,7 @@ def _nestable_subsets(t):
         for prm in fs.params:
             if prm in prod and prm not in fs.bound:
                 edges.add((prod[prm][1].name, fs.name))
+    edges = sorted(edges)
     subs = [set(e) for e in edges]
     for a, b in edges:
         for c, d in edges:
@@ -233,7 +241,7 @@ def _nestable_subsets(t):
     for s in subs:
         if s not in uniq and _nest_ok(t, s, edges):
             uniq.append(s)
-    return [sorted(s) for s in uniq]
+    return sorted(sorted(s) for s in uniq)
 
 
 def _nest_ok(t, s, edges):
@@ -245,6 +253,22 @@ def _nest_ok(t, s, edges):
         if ins and outs:
             return False
     return True
+
+
+def nest_bound(rid, v0, v1, v2, v3, v4, v5):
+    """after nest_funcs('*') the pipeline still computes the leaf from the original root arguments"""
+    L.reset()
+    t = R[rid]
+    vals = (v0, v1, v2, v3, v4, v5)
+    with NoTracing():
+        log = []
+        p = runt.make(t, log)
+        q, _ = rw_nest_all(p, t)
+        out = t[-1].outputs[0]
+        runt.warm(p, out)
+    kw = {a: x for a, x in zip(p.root_args(out), vals)}
+    exp, _, _, _ = runt.ref_eval(t, out, kw)
+    return bool(q(out, **kw) == exp) or fail("value")
 
 
 def simplify(rid, conservative, v0, v1, v2, v3, v4, v5):
@@ -408,12 +432,11 @@ def obligations(tier):
                        bounds=f"{rid}: {op} then update_defaults on either object does not affect the other",
                        canaries=("copy_shares_function_objects",) if (rid, op) == ("R3", "copy") else ())  # fmt: skip
                 )
-        ns = len(_nestable_subsets(t))
-        if ns:
+        for k, sub in enumerate(_nestable_subsets(t)):
             obs.append(
-                Ob(f"nest_{rid}", [("subset_sel", I), ("out_sel", I)] + VALS, [f"0 <= subset_sel < {ns}", f"0 <= out_sel < {nouts}"],
+                Ob(f"nest_{rid}_{'_'.join(sub)}", [("subset_sel", I), ("out_sel", I)] + VALS, [f"subset_sel == {k}", f"0 <= out_sel < {nouts}"],
                    f"H.nest_subset({rid!r}, subset_sel, out_sel, {VARGS})", timeout=300,
-                   bounds=f"{rid}: nest_funcs over {ns} connected subsets (pairs / chains of three that do not create a cycle), every output")  # fmt: skip
+                   bounds=f"{rid}: nest_funcs over the connected subset {sub}, every output")  # fmt: skip
             )
 
         obs.append(
@@ -425,6 +448,10 @@ def obligations(tier):
             Ob(f"simplify_{rid}", [("conservative", "bool")] + VALS, [], f"H.simplify({rid!r}, conservative, {VARGS})", timeout=200,
                bounds=f"{rid}: simplified_pipeline (both conservatively_combine values)")  # fmt: skip
         )
+    obs.append(
+        Ob("nest_bound_R3", VALS, [], f"H.nest_bound('R3', {VARGS})", timeout=120,
+           bounds="R3: nest_funcs('*') where a nested function has a bound parameter that no other function takes; called with the original root arguments")  # fmt: skip
+    )
     obs.append(Ob("split_R6", [("v0", I), ("v1", I)], [], "H.split(v0, v1)", bounds="split_disconnected"))
     for tid in ("T1", "T3", "T4", "T8"):
         t = T[tid]
